@@ -423,7 +423,7 @@ def run(ctx, emit_funcs, summaries):
         ctx.ob("C04.R3", fi, not bad and compared > 0, "%s vs %s.%s: %s" % (q, owner, meth, ("generated code does something the interpreter does not: " + bad[0][:900]) if bad else
                ("every generated run is an interpreter run under %d assignment(s) of up to %d decision atom(s)" % (compared, natoms) if compared else "nothing comparable")), key="skeleton %s" % direction)
     dedicated(ctx, emit_funcs, summaries)
-    ctx.floor("C04.R3", 120)
+    ctx.floor("C04.R3", 122)
 
 
 # ----------------------------------------------------------------------------- dedicated rules for the frozen classes
@@ -621,3 +621,13 @@ def dedicated(ctx, emit_funcs, summaries):
                     sets = [e for e in p.events if e.kind == "CTXSET" and e.loops and e["key"] == ("attr", s_["target"], "name")]
                     ok = ok and all(e["value"] == s_["res"] for e in sets)
         ctx.ob(rule, fi, ok, "FocusedSeq %s: generated code runs every member of self.subcons in order on the nested context and stores named results in it" % direction, key="FocusedSeq %s loop" % direction)
+        # the generated helper hands back the focused member's result (the interpreter's `finalret`), never falls off its end
+        rets_ok = bool(_tmpl(summaries, q))
+        for em, r, ts, fps in _tmpl(summaries, q):
+            fn = [f for f in fps if f != "__template__"]
+            for p in fps.get(fn[0], []) if fn else []:
+                if p.outcome[0] == "fall":
+                    rets_ok = False
+                if p.returns and (p.retval is None or p.retval == N.NONE):
+                    rets_ok = False
+        ctx.ob(rule, fi, rets_ok, "FocusedSeq %s: every run of the generated helper returns the focused member's result (no path falls off the end)" % direction, key="FocusedSeq %s returns" % direction)
